@@ -800,7 +800,7 @@ Qed.
 
 Lemma documented_is_accepted fs : documented fs = true -> accepted fs = true.
 Proof.
-  unfold documented. intro H.
+  unfold documented. intro H. apply andb_true_iff in H. destruct H as [H _].
   apply andb_true_iff in H. destruct H as [H Hrefs]. apply andb_true_iff in H. destruct H as [H Hcl].
   apply andb_true_iff in H. destruct H as [H Hroute]. apply andb_true_iff in H. destruct H as [Hhost Hvip].
   unfold doc_host in Hhost.
@@ -868,6 +868,34 @@ Proof.
       rewrite forallb_forall in Hrb.
       assert (Hin : In (odef [] (br_cluster r))
                        (flat_map (fun e => map (fun r => odef [] (br_cluster r)) (snd e)) (olist (rf_basic (fs_route fs))))).
-      { apply in_flat_map. exists e. split; [exact He|]. apply in_map. exact Hr. }
+      { apply in_flat_map. exists e. split; [exact He|]. apply in_map_iff. exists r. split; [reflexivity | exact Hr]. }
       specialize (Hrb _ Hin). rewrite E, orb_false_r in Hrb. exact Hrb.
 Qed.
+
+Definition w_doc_adv : files :=
+  {| fs_host := {| hf_version := Some b_v1; hf_default := Some b_p1;
+                   hf_hosts := Some [(b_t1, Some [b_acom]); (b_t2, Some [b_borg])];
+                   hf_tags := Some [(b_p1, Some [b_t1]); (b_p2, Some [b_t2])] |};
+     fs_vip := {| vf_version := b_v1; vf_vips := [(b_p1, [(b_ip, Some b_ip)])] |};
+     fs_route := {| rf_version := Some b_v1;
+                    rf_basic := Some [(b_p1, [{| br_hosts := [b_acom]; br_paths := [[47; 42]]; br_cluster := Some ADVANCED_MODE |};
+                                              {| br_hosts := []; br_paths := [[47; 97]]; br_cluster := Some b_c2 |}])];
+                    rf_adv := rf_adv w_route |};
+     fs_cluster := w_cluster |}.
+Lemma doc_inhabited : documented w_doc_adv = true /\ accepted w_doc_adv = true /\ closed_full w_doc_adv = true.
+Proof. repeat split; vm_compute; reflexivity. Qed.
+
+(* a vip listed under a product that host_rule.data does not define is accepted *)
+Definition b_ghost : str := [103;104;111;115;116].   (* "ghost" *)
+Definition w_vip_ghost : files :=
+  w_files [(b_t1, Some [b_acom]); (b_t2, Some [b_borg])] [(b_p1, Some [b_t1]); (b_p2, Some [b_t2])]
+          [(b_ghost, [(b_ip, Some b_ip)])].
+Lemma refuted_vip_ghost :
+  accepted w_vip_ghost = true /\ closed_full w_vip_ghost = false
+  /\ match load w_vip_ghost with
+     | Some t => oc_product (lookup t w_probe_vip) = b_ghost /\ oc_err (lookup t w_probe_vip) = 2
+     | None => False
+     end.
+Proof. split; [vm_compute; reflexivity|]. split; [vm_compute; reflexivity|]. vm_compute. split; reflexivity. Qed.
+Lemma accepted_is_closed_full fs : vip_products_defined fs = true -> accepted fs = true -> closed_full fs = true.
+Proof. intros Hv Ha. unfold closed_full. rewrite (accepted_is_closed fs Ha), Hv. reflexivity. Qed.
